@@ -9,7 +9,12 @@
   Each side is transcribed from its own source; nothing is shared between `…Py` and `…Rs` except
   language-level primitives (lexicographic order of byte strings, hex digits, "a stable sort").
   Every constant the code uses (radix 8, integer widths, S_IFMT/S_IFDIR, the terminator bytes, the `/`
-  suffix, the `0` sentinel) comes from Gen/RsPy.lean, which the translator regenerates from the sources.
+  suffix, the mode pattern and bound) comes from Gen/RsPy.lean, which the translator regenerates from
+  the sources.
+
+  The definitions without suffix describe the code AFTER the C15 repair series (findings/C15.jsonl,
+  `fixed`); the `…Old` variants describe the code before it and are used only for the regression
+  witnesses in Props/C15.lean (their constants are literals: the sources no longer contain them).
 -/
 import DulwichModel.Model.Basic
 import DulwichModel.Gen.RsPy
@@ -181,21 +186,37 @@ def pySlice (t : Bytes) (a b : Nat) : Bytes := (t.drop a).take (b - a)
 def pyIndex (t : Bytes) (b : UInt8) (start : Nat) : Option Nat :=
   (findByte b (t.drop start)).map (· + start)
 
+/-- `_TREE_MODE_RE.fullmatch(mode_text)` for the pattern `[lo-hi]+` the translator read. -/
+def pyModeRegex (tok : Bytes) : Bool :=
+  !tok.isEmpty && tok.all fun c => decide (Gen.pyModeReLo ≤ c.toNat) && decide (c.toNat ≤ Gen.pyModeReHi)
+
+/-- The mode of a token in the repaired Python `parse_tree`: the pattern, then `int(mode_text, 8)`, then
+the bound.  `none` = `ObjectFormatException` (`int()` cannot fail after the pattern:
+`Lemmas.pyInt_of_regex`). -/
+def pyModeTok (tok : Bytes) : Option Int :=
+  if pyModeRegex tok then
+    match pyInt Gen.pyModeBase tok with
+    | none => none
+    | some m => if m > Gen.pyModeMax then none else some m
+  else none
+
 inductive PyStep where
   | done
   | fail (e : Exc)
   | entry (e : TreeEntry) (count : Nat)
 
-/-- One iteration of the `while count < length` loop of Python `parse_tree`. -/
-def pyParseStep (text : Bytes) (shaLen : Option Nat) (strict : Bool) (count : Nat) : PyStep :=
+/-- One iteration of the `while count < length` loop of Python `parse_tree`; `modeFn` is what the
+code does with the mode token after the `strict` check (`none` = `ObjectFormatException`). -/
+def pyParseStepG (modeFn : Bytes → Option Int) (text : Bytes) (shaLen : Option Nat) (strict : Bool)
+    (count : Nat) : PyStep :=
   if ¬ (count < text.length) then .done else
   match pyIndex text Gen.pyModeTerm count with
   | none => .fail .value                                        -- text.index(b" ", count)
   | some modeEnd =>
     let modeText := pySlice text count modeEnd
     if strict ∧ modeText.head? = some Gen.pyStrictLead then .fail .objectFormat else
-    match pyInt Gen.pyModeBase modeText with
-    | none => .fail .objectFormat                               -- ValueError → ObjectFormatException
+    match modeFn modeText with
+    | none => .fail .objectFormat
     | some mode =>
       match pyIndex text Gen.pyNameTerm modeEnd with
       | none => .fail .value                                    -- text.index(b"\0", mode_end)
@@ -213,34 +234,40 @@ def pyParseStep (text : Bytes) (shaLen : Option Nat) (strict : Bool) (count : Na
           else .entry ⟨name, mode, hx⟩ count'
 
 /-- `list(parse_tree(text, sha_len, strict=strict))`.  Every iteration advances `count` by at least
-two bytes, so `text.length + 1` iterations suffice (`Props.C15.parse_tree_py_fuel`). -/
-def pyParseLoop (text : Bytes) (shaLen : Option Nat) (strict : Bool) :
+two bytes, so `text.length + 1` iterations suffice (`Props.C15.parse_tree_fuel`). -/
+def pyParseLoopG (modeFn : Bytes → Option Int) (text : Bytes) (shaLen : Option Nat) (strict : Bool) :
     Nat → Nat → Except Exc (List TreeEntry)
   | 0, _ => .error .fuel
   | fuel + 1, count =>
-    match pyParseStep text shaLen strict count with
+    match pyParseStepG modeFn text shaLen strict count with
     | .done => .ok []
     | .fail e => .error e
     | .entry e c =>
-      match pyParseLoop text shaLen strict fuel c with
+      match pyParseLoopG modeFn text shaLen strict fuel c with
       | .ok es => .ok (e :: es)
       | .error x => .error x
 
+/-- Python `parse_tree` (repaired: pattern `[0-7]+`, value ≤ 0xFFFFFFFF). -/
 def parseTreePy (text : Bytes) (shaLen : Option Nat) (strict : Bool) : Except Exc (List TreeEntry) :=
-  pyParseLoop text shaLen strict (text.length + 1) 0
+  pyParseLoopG pyModeTok text shaLen strict (text.length + 1) 0
+
+/-- Python `parse_tree` before the repair: `int(mode_text, 8)`, `ValueError` → `ObjectFormatException`. -/
+def parseTreePyOld (text : Bytes) (shaLen : Option Nat) (strict : Bool) : Except Exc (List TreeEntry) :=
+  pyParseLoopG (pyInt 8) text shaLen strict (text.length + 1) 0
 
 inductive RsStep where
   | done
   | fail (e : Exc)
   | entry (e : TreeEntry) (rest : Bytes)
 
-/-- One iteration of `while !text.is_empty()` of Rust `parse_tree`; `text` is the remaining slice. -/
-def rsParseStep (shaLen : Nat) (strict : Bool) (text : Bytes) : RsStep :=
+/-- One iteration of `while !text.is_empty()` of Rust `parse_tree`; `text` is the remaining slice and
+`modeOf text mode_end` what the code does to obtain the mode (`none` = `ObjectFormatException`). -/
+def rsParseStepG (modeOf : Bytes → Nat → Option Nat) (shaLen : Nat) (strict : Bool) (text : Bytes) : RsStep :=
   if text.isEmpty then .done else
   match findByte Gen.rsModeTerm text with
   | none => .fail .objectFormat                                 -- "Missing terminator for mode"
   | some modeEnd =>
-    match rsFromStrRadix Gen.rsModeRadix Gen.rsModeBits (text.take modeEnd) with
+    match modeOf text modeEnd with
     | none => .fail .objectFormat                               -- "invalid mode"
     | some mode =>
       if strict ∧ text.head? = some Gen.rsStrictLead then .fail .objectFormat else
@@ -253,22 +280,36 @@ def rsParseStep (shaLen : Nat) (strict : Bool) (text : Bytes) : RsStep :=
         if text2.length < shaLen then .fail .objectFormat       -- "SHA truncated"
         else .entry ⟨name, Int.ofNat mode, hexlify (text2.take shaLen)⟩ (text2.drop shaLen)
 
-def rsParseLoop (shaLen : Nat) (strict : Bool) : Nat → Bytes → Except Exc (List TreeEntry)
+def rsParseLoopG (modeOf : Bytes → Nat → Option Nat) (shaLen : Nat) (strict : Bool) :
+    Nat → Bytes → Except Exc (List TreeEntry)
   | 0, _ => .error .fuel
   | fuel + 1, text =>
-    match rsParseStep shaLen strict text with
+    match rsParseStepG modeOf shaLen strict text with
     | .done => .ok []
     | .fail e => .error e
     | .entry e rest =>
-      match rsParseLoop shaLen strict fuel rest with
+      match rsParseLoopG modeOf shaLen strict fuel rest with
       | .ok es => .ok (e :: es)
       | .error x => .error x
+
+/-- Repaired Rust: `if text[0] == b'+' { error }`, then `u32::from_str_radix(lossy(text[..mode_end]), 8)`. -/
+def rsModeOf (text : Bytes) (modeEnd : Nat) : Option Nat :=
+  if text.head? = some Gen.rsRejectLead then none
+  else rsFromStrRadix Gen.rsModeRadix Gen.rsModeBits (text.take modeEnd)
+
+/-- Before the repair: `from_str_radix` alone (accepts one leading `+`). -/
+def rsModeOfOld (text : Bytes) (modeEnd : Nat) : Option Nat := rsFromStrRadix 8 32 (text.take modeEnd)
 
 /-- Rust `parse_tree(text, sha_len, strict)`; `sha_len=None` is a `TypeError` at the call boundary. -/
 def parseTreeRs (text : Bytes) (shaLen : Option Nat) (strict : Bool) : Except Exc (List TreeEntry) :=
   match shaLen with
   | none => .error .type
-  | some n => rsParseLoop n strict (text.length + 1) text
+  | some n => rsParseLoopG rsModeOf n strict (text.length + 1) text
+
+def parseTreeRsOld (text : Bytes) (shaLen : Option Nat) (strict : Bool) : Except Exc (List TreeEntry) :=
+  match shaLen with
+  | none => .error .type
+  | some n => rsParseLoopG rsModeOfOld n strict (text.length + 1) text
 
 /-! ## sorted_tree_items -/
 
@@ -294,28 +335,49 @@ def pyKeyAll : List TreeEntry → Except Exc (List (Bytes × TreeEntry))
       | .error x => .error x
       | .ok ks => .ok ((k, e) :: ks)
 
-/-- Python `list(sorted_tree_items(entries, name_order))`; `entries` in dictionary order, values typed
-`(int, bytes)`.  `sorted` computes every key before comparing anything. -/
-def sortedTreeItemsPy (entries : List TreeEntry) (nameOrder : Bool) : Except Exc (List TreeEntry) :=
+/-- Python `list(sorted_tree_items(entries, name_order))` before the repair; `entries` in dictionary
+order, values typed `(int, bytes)`.  `sorted` computes every key before comparing anything. -/
+def sortedTreeItemsPyOld (entries : List TreeEntry) (nameOrder : Bool) : Except Exc (List TreeEntry) :=
   if nameOrder then .ok (stableSort (fun a b => bytesLt a.name b.name) entries)
   else
     match pyKeyAll entries with
     | .error x => .error x
     | .ok keyed => .ok ((stableSort (fun p q => bytesLt p.1 q.1) keyed).map (·.2))
 
+/-- the range check of the loop body: `if not 0 <= mode <= 0xFFFFFFFF: raise TypeError` -/
+def pyModeInRange (e : TreeEntry) : Bool := decide (0 ≤ e.mode) && decide (e.mode ≤ Gen.pySortModeMax)
+
+/-- Python `list(sorted_tree_items(entries, name_order))` (repaired: every mode is range-checked while
+the sorted entries are produced). -/
+def sortedTreeItemsPy (entries : List TreeEntry) (nameOrder : Bool) : Except Exc (List TreeEntry) :=
+  match sortedTreeItemsPyOld entries nameOrder with
+  | .error x => .error x
+  | .ok sorted => if sorted.all pyModeInRange then .ok sorted else .error .type
+
 def rsObjIsDir (mode : Nat) : Bool := Nat.land mode Gen.rsObjSIfmt == Gen.rsObjSIfdir
 
-/-- Rust `cmp_with_suffix((mode, name), (mode, name))`. -/
+/-- the virtual suffix of a name: `b"/"` for a directory, `b""` otherwise -/
+def rsSuffix (mode : Nat) : Bytes := if rsObjIsDir mode then [Gen.rsDirSuffix] else []
+
+/-- Rust `cmp_with_suffix((mode, name), (mode, name))` (repaired): common prefix by slice comparison,
+then `rest_a.iter().chain(suffix_a).cmp(rest_b.iter().chain(suffix_b))`. -/
 def rsCmpWithSuffix (a b : Nat × Bytes) : Ordering :=
+  let len := min a.2.length b.2.length
+  let c := cmpBytes (a.2.take len) (b.2.take len)
+  if c ≠ .eq then c else
+  cmpBytes (a.2.drop len ++ rsSuffix a.1) (b.2.drop len ++ rsSuffix b.1)
+
+/-- Before the repair: ONE byte past the common prefix, `0` standing for "no suffix". -/
+def rsCmpWithSuffixOld (a b : Nat × Bytes) : Ordering :=
   let len := min a.2.length b.2.length
   let c := cmpBytes (a.2.take len) (b.2.take len)
   if c ≠ .eq then c else
   let c1 : UInt8 := match a.2[len]? with
     | some ch => ch
-    | none => if rsObjIsDir a.1 then Gen.rsDirSuffix else Gen.rsNoSuffix
+    | none => if rsObjIsDir a.1 then 47 else 0
   let c2 : UInt8 := match b.2[len]? with
     | some ch => ch
-    | none => if rsObjIsDir b.1 then Gen.rsDirSuffix else Gen.rsNoSuffix
+    | none => if rsObjIsDir b.1 then 47 else 0
   cmpU8 c1 c2
 
 /-- `value.extract::<(u32, Vec<u8>)>()` for every entry, in dictionary order. -/
@@ -328,14 +390,18 @@ def rsExtractAll (bits : Nat) : List TreeEntry → Except Exc (List (Bytes × Na
       | .error x => .error x
       | .ok r => .ok ((e.name, e.mode.toNat, e.hexsha) :: r)
 
-/-- Rust `sorted_tree_items(entries, name_order)`. -/
-def sortedTreeItemsRs (entries : List TreeEntry) (nameOrder : Bool) : Except Exc (List TreeEntry) :=
+/-- Rust `sorted_tree_items(entries, name_order)` with the tree-order comparator `cmp`. -/
+def sortedTreeItemsRsG (cmp : Nat × Bytes → Nat × Bytes → Ordering) (entries : List TreeEntry)
+    (nameOrder : Bool) : Except Exc (List TreeEntry) :=
   match rsExtractAll Gen.rsSortModeBits entries with
   | .error x => .error x
   | .ok q =>
     let sorted :=
       if nameOrder then stableSort (fun a b => cmpBytes a.1 b.1 == .lt) q
-      else stableSort (fun a b => rsCmpWithSuffix (a.2.1, a.1) (b.2.1, b.1) == .lt) q
+      else stableSort (fun a b => cmp (a.2.1, a.1) (b.2.1, b.1) == .lt) q
     .ok (sorted.map fun t => ⟨t.1, Int.ofNat t.2.1, t.2.2⟩)
+
+def sortedTreeItemsRs := sortedTreeItemsRsG rsCmpWithSuffix
+def sortedTreeItemsRsOld := sortedTreeItemsRsG rsCmpWithSuffixOld
 
 end Dulwich.RsPy
